@@ -5,6 +5,7 @@ cached values)."""
 from __future__ import annotations
 
 import ast
+import re
 from typing import Callable, Dict, List, Optional, Set, Tuple
 
 from ..cfg import CFG, Node, assigned_names, cond_facts, def_value, facts_at, mutated_bases, owner_node, reaching_defs
@@ -837,6 +838,40 @@ def r38(ctx: Ctx) -> RuleReport:
     for nm, good in (('has exactly two non-instance relations', ok2), ('its concept is dereifiable', ok3)):
         rep.add(f'{fi.fq}: agenda entry requires: {nm}', fi.loc(st), 'ok' if good else 'undecided',
                 '' if good else f'guards present: {sorted(f for f, p in facts if p)}')
+    # the per-node collection whose length is tested keeps every relation (a list), not one per role
+    cname = None
+    for f, pol in facts:
+        m = re.match(r'len\((\w+)(?:\.get\(|\[)', f)
+        if m and ((pol and f.endswith('== 2')) or (not pol and f.endswith('!= 2'))):
+            cname = m.group(1)
+    if cname:
+        keyc = f'{fi.fq}: the relations of a node are collected without loss (two relations with the same role count as two)'
+        bad_store = None
+        good_store = False
+        for n in walk_local(fi.node):
+            if isinstance(n, ast.Assign) and isinstance(n.targets[0], ast.Subscript):
+                t = n.targets[0]
+                inner = t.value
+                # X[var][k] = triple   /   X.setdefault(var, {})[k] = triple
+                if (isinstance(inner, ast.Subscript) and norm(inner.value) == cname) or (
+                        isinstance(inner, ast.Call) and isinstance(inner.func, ast.Attribute) and inner.func.attr == 'setdefault' and norm(inner.func.value) == cname):
+                    bad_store = n
+                if norm(t.value) == cname and isinstance(n.value, ast.List):
+                    good_store = True
+            if isinstance(n, ast.Call) and isinstance(n.func, ast.Attribute) and n.func.attr == 'append':
+                r = n.func.value
+                if (isinstance(r, ast.Subscript) and norm(r.value) == cname) or (
+                        isinstance(r, ast.Call) and isinstance(r.func, ast.Attribute) and r.func.attr == 'setdefault' and norm(r.func.value) == cname):
+                    good_store = True
+        for h in [x for x in ctx.cg.callees(fi) if x.module.name == fi.module.name]:
+            for n in walk_local(h.node):
+                if isinstance(n, ast.Call) and isinstance(n.func, ast.Attribute) and n.func.attr == 'append' and isinstance(n.func.value, (ast.Subscript, ast.Call)):
+                    good_store = True
+        if bad_store is not None:
+            rep.violation(keyc, fi.loc(bad_store), f'`{norm(bad_store)[:70]}` keys the relations of a node by a second index: two relations that share it '
+                          f'overwrite each other, so a node with three relations can look as if it had exactly two and is collapsed, dropping a triple')
+        else:
+            rep.add(keyc, fi.loc(), 'ok' if good_store else 'undecided')
     # everything that ever flows into the fixed set (followed into a local helper that builds and returns it)
     def feeds_of(fi, fx, gp, depth=0):
         feeds: List[Tuple[str, ast.AST, str]] = []      # (kind, node, detail); kind: top | targets | bad | unknown | empty
